@@ -1,5 +1,6 @@
 import PPLV.Lin.Parse
 import PPLV.Powerset.DNF
+import PPLV.Product.Judge
 
 /-! `pplv_ps`: judges the journals of `harness/c09_powerset.cc` (pointset powersets) and
 `harness/c10_product.cc` (partially reduced products) with the verified K1 procedures.
@@ -12,7 +13,7 @@ re-based on the printed disjuncts (same set, so that one defect gives one report
 entailment diagnostics see the actual sequence).
 Verdicts: `ok n`, `skip n why`, `MISMATCH n obligation detail`, `note n text` (model/sequence-level
 divergence that does not contradict the property). -/
-open PPLV.Lin PPLV.Powerset
+open PPLV.Lin PPLV.Powerset PPLV.Product
 
 inductive Pending
   | eq                                          -- observed union = model
@@ -25,6 +26,18 @@ inductive Pending
 structure Slot where
   n : Nat
   dj : DNF
+
+/-- one component of a product as printed by the harness -/
+inductive Comp
+  | poly (cs : List Con)
+  | grid (empty : Bool) (cgs : List Cgr) (gens : List GGen)
+deriving Inhabited
+
+structure PState where
+  n : Nat
+  c1 : Comp
+  c2 : Comp
+deriving Inhabited
 
 structure St where
   dom : String := "C"
@@ -39,8 +52,14 @@ structure St where
   nBad : Nat := 0
   nSkip : Nat := 0
   nNote : Nat := 0
-  -- products
-  prod : Array (Option (Nat × List Con × List Con)) := Array.replicate 8 none
+  -- products: last claimed raw components, last observed ones, component-wise result of a `pimp`
+  praw : Array (Option PState) := Array.replicate 8 none
+  pcur : Array (Option PState) := Array.replicate 8 none
+  pcw : Option PState := none
+  pimp : Option (Nat × String × List String) := none
+  policy : String := ""
+  nSampled : Nat := 0
+  nChanged : Nat := 0
 
 abbrev M := StateT St IO
 
@@ -230,13 +249,291 @@ def applyOp (st : St) (s : Slot) (name : String) (args : List String) : Slot × 
       | none => (s, .atMost m false)
   | _, _ => (s, .any)
 
+/-! ### products -/
+
+def parseCgrs (n : Nat) (ts : List String) : List Cgr × List String :=
+  match ts with
+  | m :: rest =>
+    let rec go : Nat → List String → List Cgr → List Cgr × List String
+      | 0, ts, acc => (acc, ts)
+      | k+1, ts, acc =>
+        match ts with
+        | md :: kk :: r =>
+          let (cf, r') := takeInts n r
+          go k r' (acc ++ [⟨tokInt md, tokInt kk, cf⟩])
+        | _ => (acc, [])
+    go (tokNat m) rest []
+  | [] => ([], [])
+
+def parseGGens (n : Nat) (ts : List String) : List GGen × List String :=
+  match ts with
+  | m :: rest =>
+    let rec go : Nat → List String → List GGen → List GGen × List String
+      | 0, ts, acc => (acc, ts)
+      | k+1, ts, acc =>
+        match ts with
+        | kd :: d :: r =>
+          let (cf, r') := takeInts n r
+          let kind := if kd == "l" then GK.line else if kd == "q" then GK.param else GK.point
+          go k r' (acc ++ [⟨kind, tokInt d, cf⟩])
+        | _ => (acc, [])
+    go (tokNat m) rest []
+  | [] => ([], [])
+
+def parseComp (n : Nat) (ts : List String) : Comp × List String :=
+  match ts with
+  | "P" :: rest => let (cs, r) := parseCS n rest; (.poly cs, r)
+  | "G" :: "1" :: _ :: _ :: rest => (.grid true [] [], rest)
+  | "G" :: "0" :: rest =>
+    let (cgs, r1) := parseCgrs n rest
+    let (gs, r2) := parseGGens n r1
+    (.grid false cgs gs, r2)
+  | _ => (.poly [], [])
+
+def parsePState (ts : List String) : Option PState :=
+  match ts with
+  | n :: rest =>
+    let nn := tokNat n
+    let (c1, r1) := parseComp nn rest
+    let (c2, _) := parseComp nn r1
+    some ⟨nn, c1, c2⟩
+  | _ => none
+
+/-- a component that K1 can express: polyhedra, empty grids, grids given by equalities only -/
+def Comp.asPoly? : Comp → Option (List Con)
+  | .poly cs => some cs
+  | .grid true _ _ => some [falseRow]
+  | .grid false cgs _ =>
+    if cgs.all (fun c => c.m == 0) then some (cgs.flatMap fun c => eqRows c.coeffs c.k) else none
+
+def Comp.isGrid : Comp → Bool
+  | .grid .. => true
+  | _ => false
+
+def Comp.mem (c : Comp) (x : List Rat) : Bool :=
+  match c with
+  | .poly cs => allHold cs x
+  | .grid true _ _ => false
+  | .grid false cgs _ => cgs.all (cgrHolds · x)
+
+/-- `a ⊆ b` for two printings of the same kind of component; `none` = cannot decide -/
+def compSubset (n : Nat) (a b : Comp) : Option Bool :=
+  match a, b with
+  | .poly x, .poly y => some (subsetB n x y)
+  | .grid true _ _, .grid .. => some true
+  | .grid false _ ga, .grid true _ _ => some ga.isEmpty
+  | .grid false _ ga, .grid false cb _ =>
+    some (ga.all fun g =>
+      match g.kind with
+      | .point => cb.all (cgrHolds · g.vec)
+      | .param => cb.all (cgrHoldsDir · g.vec false)
+      | .line => cb.all (cgrHoldsDir · g.vec true))
+  | _, _ => none
+
+/-- the intersection of the two components as one constraint system, when K1 can express it -/
+def PState.meet? (p : PState) : Option (List Con) :=
+  match p.c1.asPoly?, p.c2.asPoly? with
+  | some a, some b => some (a ++ b)
+  | _, _ => none
+
+def PState.mem (p : PState) (x : List Rat) : Bool := p.c1.mem x && p.c2.mem x
+
+/-- sample points of the intersection: lattice points of the grid component inside the other one -/
+def PState.samples (p : PState) : List (List Rat) :=
+  let pts := match p.c1, p.c2 with
+    | .grid false _ g, _ => gridSamples p.n g
+    | _, .grid false _ g => gridSamples p.n g
+    | _, _ => []
+  pts.filter p.mem
+
+inductive Incl | yes | no (why : String) | sampledOk (k : Nat)
+
+/-- is `meet a ⊆ meet b`?  exact through K1 when both are expressible, else by sampling `a` -/
+def meetSubset (a b : PState) : Incl :=
+  match a.meet?, b.meet? with
+  | some x, some y => if subsetB a.n x y then .yes else .no "K1"
+  | _, _ =>
+    let ss := a.samples
+    match ss.find? (fun x => !b.mem x) with
+    | some x => .no s!"sample point {x}"
+    | none => .sampledOk ss.length
+
+def verdictIncl (ln : Nat) (what : String) (r : Incl) : M Bool := do
+  match r with
+  | .yes => return true
+  | .sampledOk k => modify (fun st => { st with nSampled := st.nSampled + k }); return true
+  | .no why => bad ln s!"{what} ({why})"; return false
+
+def Comp.isEmptyC (n : Nat) : Comp → Bool
+  | .poly cs => !feasible n cs
+  | .grid e _ _ => e
+
+/-- `pobs` after `praw`: components shrink, intersection unchanged -/
+def judgeReduce (ln : Nat) (what : String) (raw obs : PState) : M Unit := do
+  let pol := (← get).policy
+  if raw.n != obs.n then bad ln s!"{what}: space dimension {obs.n}, expected {raw.n}"
+  else if (pol == "smash" || pol == "constraints") && (obs.c1.isEmptyC obs.n != obs.c2.isEmptyC obs.n) then
+    bad ln s!"smash_propagation: after the {pol} reduction exactly one component is empty (Smash_Reduction propagates emptiness)"
+  else
+    match compSubset raw.n obs.c1 raw.c1, compSubset raw.n obs.c2 raw.c2 with
+    | some true, some true =>
+      if ← verdictIncl ln s!"{what}: the reduction lost a common point of the components" (meetSubset raw obs) then
+        match raw.meet?, obs.meet? with
+        | some _, some _ => ok ln
+        | _, _ => IO.println s!"ok {ln} sampled"; modify fun st => { st with nOk := st.nOk + 1 }
+    | some false, _ => bad ln s!"{what}: component 1 is not contained in the component it was reduced from"
+    | _, some false => bad ln s!"{what}: component 2 is not contained in the component it was reduced from"
+    | _, _ => skip ln "component-kind"
+
+/-- the lower bound `image(meet of the raw operands) ⊆ meet(obs)` of an operator that reduces first -/
+def judgeImplicit (ln : Nat) (name : String) (args : List String) (x : PState) (y : Option PState)
+    (cw obs : PState) : M Unit := do
+  let n := x.n
+  -- upper bound (monotone operators): components within the component-wise result on the raw operands
+  let monotone := name != "diff"
+  let up1 := if monotone then compSubset obs.n obs.c1 cw.c1 else some true
+  let up2 := if monotone then compSubset obs.n obs.c2 cw.c2 else some true
+  if up1 == some false || up2 == some false then
+    bad ln s!"{name}: a component exceeds the component-wise result on the unreduced operands"
+  else
+    let exactPair := x.meet?.isSome && obs.meet?.isSome && (y.map (·.meet?.isSome)).getD true
+    if exactPair then
+      let mx := x.meet?.getD []
+      let mo := obs.meet?.getD []
+      let my := (y.bind (·.meet?)).getD []
+      let lower : DNF :=
+        if name == "unconstrain" then [(RefPoly.unconstrain ⟨true, n, mx⟩ [tokNat (args.headD "0")]).cs]
+        else if name == "ub" then [mx, my]
+        else if name == "diff" then dnfMinus n [mx] [my]
+        else if name == "time_elapse" then (if feasible n my then [mx] else [])
+        else []
+      if dnfSubsetF n lower [mo] then ok ln
+      else bad ln s!"{name}: the result does not contain the exact image of the operands' intersections"
+    else
+      -- sampling
+      let sx := x.samples
+      let sy := (y.map (·.samples)).getD []
+      let cand : List (List Rat) :=
+        if name == "unconstrain" then
+          let v := tokNat (args.headD "0")
+          sx.flatMap fun p => [(-2 : Rat), -1, 0, 1, 3].map fun d => p.set v (p.getD v 0 + d)
+        else if name == "ub" then sx ++ sy
+        else if name == "diff" then sx.filter fun p => !((y.map (·.mem p)).getD false)
+        else if name == "time_elapse" then (if sy.isEmpty then [] else sx)
+        else []
+      -- `unconstrain` leaves the lattice: only the non-grid component can be sampled soundly
+      let cand := if name == "unconstrain" then [] else cand
+      match cand.find? (fun p => !obs.mem p) with
+      | some p => bad ln s!"{name}: the result lost the point {p} of the exact image"
+      | none =>
+        modify fun st => { st with nSampled := st.nSampled + cand.length, nOk := st.nOk + 1 }
+        IO.println s!"ok {ln} sampled"
+
+def judgePQ (ln : Nat) (st : St) (s : String) (qn : String) (rest : List String) : M Unit := do
+  match st.pcur.getD (tokNat s) none with
+  | none => skip ln "unknown-slot"
+  | some p =>
+    let n := p.n
+    let a0 := rest.getD 0 ""
+    let a1 := rest.getD 1 ""
+    let other (t : String) : Option PState := st.pcur.getD (tokNat t) none
+    match p.meet? with
+    | some m =>
+      -- exact judgement of the definite answers on the intersection
+      let definite (ans : String) (truth : Bool) (what : String) : M Unit :=
+        if ans == "1" && !truth then bad ln s!"{what}: library answers true, the intersection dictates false" else ok ln
+      if qn == "is_empty" then definite a0 (!feasible n m) "is_empty"
+      else if qn == "is_universe" then definite a0 (subsetB n [] m) "is_universe"
+      else if qn == "is_bounded" then definite a0 ((RefPoly.mk true n m).isBounded || !feasible n m) "is_bounded"
+      else if qn == "contains" || qn == "strictly_contains" then
+        match (other a0).bind (·.meet?) with
+        | some mt => definite a1 (subsetB n mt m) qn
+        | none => skip ln "other-not-expressible"
+      else if qn == "disjoint" then
+        match (other a0).bind (·.meet?) with
+        | some mt => definite a1 (disjointB n m mt) "is_disjoint_from"
+        | none => skip ln "other-not-expressible"
+      else if qn == "bounds_above" || qn == "bounds_below" then
+        let (e, r) := parseExpr n rest
+        let e' := if qn == "bounds_above" then e else negExpr e
+        definite (r.getD 0 "") (match supB n e'.coeffs e'.k m with | .unbounded => false | _ => true) qn
+      else if qn == "max" || qn == "min" then
+        let (e, r) := parseExpr n rest
+        match r with
+        | [num, den, _] =>
+          let e' := if qn == "max" then e else negExpr e
+          let (nu, de) := if qn == "max" then (tokInt num, tokInt den) else (- tokInt num, tokInt den)
+          (match supB n e'.coeffs e'.k m with
+           | .val a b _ => if decide (a * de ≤ nu * b) then ok ln
+                           else bad ln s!"{qn}: library bound {num}/{den} is not a bound of the intersection (optimum {a}/{b})"
+           | .unbounded => bad ln s!"{qn}: library bound {num}/{den}, the intersection is unbounded"
+           | .empty => ok ln)
+        | _ => ok ln
+      else if qn == "relcon" then
+        let (rows, r') := parseCon n rest
+        match r' with
+        | [fd, _, fi, fsat] =>
+          let rel := rest.getD 0 ""
+          let k := rest.getD 1 ""
+          let cf := (takeInts n (rest.drop 2)).1
+          let hyper := eqRows cf (tokInt k)
+          let rows' := if rel == "=" then hyper else rows
+          if fd == "1" && !disjointB n m rows' then bad ln "relation_with(constraint): is_disjoint reported, the intersection meets the constraint"
+          else if fi == "1" && !subsetB n m rows' then bad ln "relation_with(constraint): is_included reported, the intersection is not included"
+          else if fsat == "1" && !subsetB n m hyper then bad ln "relation_with(constraint): saturates reported, the intersection does not saturate"
+          else ok ln
+        | _ => skip ln "parse"
+      else skip ln s!"unknown-query {qn}"
+    | none =>
+      -- grid pair: refutation by sampled common points
+      let ss := p.samples
+      let refute (ans : String) (cex : Option (List Rat)) (what : String) : M Unit :=
+        match ans, cex with
+        | "1", some x => bad ln s!"{what}: library answers true, refuted by the common point {x}"
+        | _, _ => do
+          modify fun st => { st with nSampled := st.nSampled + ss.length, nOk := st.nOk + 1 }
+          IO.println s!"ok {ln} sampled"
+      if qn == "is_empty" then refute a0 ss.head? "is_empty"
+      else if qn == "contains" || qn == "strictly_contains" then
+        match other a0 with
+        | some t => refute a1 (t.samples.find? fun x => !p.mem x) qn
+        | none => skip ln "unknown-slot"
+      else if qn == "disjoint" then
+        match other a0 with
+        | some t => refute a1 (ss.find? fun x => t.mem x) "is_disjoint_from"
+        | none => skip ln "unknown-slot"
+      else if qn == "relcon" then
+        let (rows, r') := parseCon n rest
+        match r' with
+        | [fd, _, fi, fsat] =>
+          let rel := rest.getD 0 ""
+          let k := rest.getD 1 ""
+          let cf := (takeInts n (rest.drop 2)).1
+          let hyper := eqRows cf (tokInt k)
+          let rows' := if rel == "=" then hyper else rows
+          if fd == "1" && ss.any (allHold rows') then bad ln "relation_with(constraint): is_disjoint reported, refuted by a sampled common point"
+          else if fi == "1" && ss.any (fun x => !allHold rows' x) then bad ln "relation_with(constraint): is_included reported, refuted by a sampled common point"
+          else if fsat == "1" && ss.any (fun x => !allHold hyper x) then bad ln "relation_with(constraint): saturates reported, refuted by a sampled common point"
+          else refute "0" none "relcon"
+        | _ => skip ln "parse"
+      else if qn == "max" || qn == "min" then
+        let (e, r) := parseExpr n rest
+        match r with
+        | [num, den, _] =>
+          let v : Rat := (tokInt num : Rat) / (tokInt den : Rat)
+          let val (x : List Rat) : Rat := dotQ e.coeffs x + (e.k : Rat)
+          let cex := ss.find? fun x => if qn == "max" then decide (v < val x) else decide (val x < v)
+          refute "1" cex qn
+        | _ => refute "0" none qn
+      else skip ln "grid-pair-not-judged"
+
 def processLine (ln : Nat) (line : String) : M Unit := do
   let ts := (line.trimAscii.toString.splitOn " ").filter (· ≠ "")
   match ts with
-  | "hist" :: _ :: _ :: dom :: _ =>
-    modify fun s => { s with dom := dom, slots := Array.replicate 8 none, pend := Array.replicate 8 none,
+  | "hist" :: _ :: _ :: dom :: more =>
+    modify fun s => { s with dom := dom, policy := more.getD 1 "", slots := Array.replicate 8 none, pend := Array.replicate 8 none,
                              hints := none, baseBroken := false, baseNote := "", lastRet := none,
-                             prod := Array.replicate 8 none }
+                             praw := Array.replicate 8 none, pcur := Array.replicate 8 none, pcw := none, pimp := none }
   | "new" :: s :: n :: k :: rest =>
     let nn := tokNat n
     setSlot (tokNat s) (some ⟨nn, (parseDNF nn (tokNat k) rest).1⟩); setPend (tokNat s) none
@@ -384,6 +681,49 @@ def processLine (ln : Nat) (line : String) : M Unit := do
         | _ => skip ln "parse"
       else if qn == "size" then pure ()
       else skip ln s!"unknown-query {qn}"
+  | "praw" :: s :: rest =>
+    modify fun st => { st with praw := st.praw.setIfInBounds (tokNat s) (parsePState rest),
+                               pcur := st.pcur.setIfInBounds (tokNat s) (parsePState rest) }
+  | "pnew" :: s :: _ =>
+    modify fun st => { st with praw := st.praw.setIfInBounds (tokNat s) none, pcur := st.pcur.setIfInBounds (tokNat s) none }
+  | ["pcopy", d, s] =>
+    modify fun st => { st with praw := st.praw.setIfInBounds (tokNat d) (st.praw.getD (tokNat s) none),
+                               pcur := st.pcur.setIfInBounds (tokNat d) (st.pcur.getD (tokNat s) none) }
+  | "pop" :: s :: _ =>
+    -- component-wise operator: the raw state will be printed before the next observation
+    modify fun st => { st with praw := st.praw.setIfInBounds (tokNat s) none, pcur := st.pcur.setIfInBounds (tokNat s) none }
+  | "pimp" :: s :: name :: args =>
+    modify fun st => { st with pimp := some (tokNat s, name, args), pcw := none }
+  | "pcw" :: _ :: rest => modify fun st => { st with pcw := parsePState rest }
+  | "pexp" :: _ => pure ()
+  | "pobs" :: s :: rest => do
+    let st ← get
+    let si := tokNat s
+    match parsePState rest with
+    | none => skip ln "parse"
+    | some obs =>
+      match st.pimp, st.pcw with
+      | some (sj, name, args), some cw =>
+        if sj == si then
+          match st.praw.getD si none with
+          | some x =>
+            let y := match args with
+              | [t] => if name == "unconstrain" then none else st.praw.getD (tokNat t) none
+              | _ => none
+            if name != "unconstrain" && y.isNone then skip ln "operand-unknown"
+            else judgeImplicit ln name args x y cw obs
+          | none => skip ln "operand-unknown"
+        else skip ln "pimp-slot"
+      | _, _ =>
+        match st.praw.getD si none with
+        | some raw => judgeReduce ln "reduce" raw obs
+        | none => skip ln "raw-unknown"
+      modify fun st => { st with praw := st.praw.setIfInBounds si (some obs), pcur := st.pcur.setIfInBounds si (some obs),
+                                 pimp := none, pcw := none }
+  | "pq" :: s :: qn :: rest => do
+    let st ← get
+    judgePQ ln st s qn rest
+    -- the predicate may have reduced the product: the next `pobs` is judged against the same raw state
   | "crash" :: sig => bad ln s!"crash {" ".intercalate sig}"
   | _ => pure ()
 
@@ -399,5 +739,5 @@ partial def loop (h : IO.FS.Stream) (ln : Nat) : M Unit := do
 def main (_args : List String) : IO UInt32 := do
   let stdin ← IO.getStdin
   let ((), st) ← (loop stdin 1).run {}
-  IO.println s!"summary ok={st.nOk} mismatch={st.nBad} skipped={st.nSkip} notes={st.nNote}"
+  IO.println s!"summary ok={st.nOk} mismatch={st.nBad} skipped={st.nSkip} notes={st.nNote} sampled={st.nSampled}"
   return 0
